@@ -21,6 +21,7 @@ const (
 	FamW3    = "w3-abandoned"
 	FamW4    = "w4-leader-move"
 	FamW5    = "w5-wait-for-space"
+	FamW6    = "w6-shared-worker"
 )
 
 var retriableCodes = []int16{6, 7, 19, 3, 5, 2}
@@ -450,6 +451,53 @@ func Corpus() []Item {
 	out = append(out, Item{Family: FamW5, Sc: &cluster.Scenario{Name: "corpus/w5-wait-for-space", Brokers: 1, Partitions: 1, Topics: []string{"t0"},
 		RetryMax: 2, V2: true, MaxMsgs: 2, FlushMsgs: 2, Msgs: hots(6, 2), Script: []cluster.Fault{ret(6)}},
 		Steer: []Steer{{HoldKind: "bridge.send", HoldNth: 1, ReleaseOn: &Release{Kind: "bp.waitForSpace"}, Gate: 1}}})
+	// w6: two partitions share one broker worker and both fail. The bounced message of the second partition is kept
+	// back in the retry queue while the first partition's chaser passes the worker and fresh messages of both
+	// partitions arrive: the worker must go on refusing the partition whose own chaser has not passed yet.
+	p1 := func(id int64, wave int) cluster.MsgSpec { return cluster.MsgSpec{ID: id, Topic: "t0", Choice: 1, Wave: wave} }
+	out = append(out, Item{Family: FamW6, Sc: &cluster.Scenario{Name: "corpus/w6-shared-worker-one-request", Brokers: 1, Partitions: 2, Topics: []string{"t0"},
+		RetryMax: 2, V2: true, FlushMsgs: 2, Msgs: []cluster.MsgSpec{hot(1, 0), p1(2, 0), hot(3, 1), p1(4, 1), hot(5, 1), p1(6, 1)},
+		Script: []cluster.Fault{ret(6)}},
+		Steer: []Steer{
+			{HoldKind: "rh.forward", HoldNth: 2, ReleaseOn: &Release{Kind: "return.success", Count: 2}},
+			{HoldKind: "retry.enqueue", HoldNth: 1, HoldFin: true, Gate: 1}}})
+	out = append(out, Item{Family: FamW6, Sc: &cluster.Scenario{Name: "corpus/w6-shared-worker-two-requests", Brokers: 1, Partitions: 2, Topics: []string{"t0"},
+		RetryMax: 3, V2: true, Msgs: []cluster.MsgSpec{hot(1, 0), p1(2, 0), p1(3, 1), p1(4, 1), hot(5, 1)},
+		Script: []cluster.Fault{ret(6), ret(7)}},
+		Steer: []Steer{
+			{HoldKind: "rh.forward", HoldNth: 1, ReleaseOn: &Release{Kind: "retry.enqueue", MsgID: 2}},
+			{HoldKind: "rh.forward", HoldNth: 2, ReleaseOn: &Release{Kind: "return.success", MsgID: 3}},
+			{HoldKind: "retry.enqueue", HoldNth: 1, HoldFin: true, Gate: 1}}})
+	// w6, the interleaving in which it matters: five partitions a..e (0..4) share the worker, Flush.MaxMessages = 2.
+	// Request {a1} is kept back; b1 c1 fill the buffer, c2 overflows (waitForSpace); d1, e1, b2 queue up on the
+	// worker's input in that order, b3 b4 behind b2 in partition b's worker. {a1} fails (retriable): {b1 c1} goes out
+	// and is kept back; the worker takes d1 and overflows again on e1; partition a's chaser queues up behind b2.
+	// {b1 c1}: b fails (retriable), c ok. The worker then reads b2 (bounced), a's chaser, b3, b4 - which must be
+	// bounced as well, because b1 and b2 are still on their way back.
+	pm := func(id int64, part int32, wave int) cluster.MsgSpec { return cluster.MsgSpec{ID: id, Topic: "t0", Choice: part, Wave: wave} }
+	okf := cluster.Fault{Kind: cluster.Ok, Only: -1}
+	out = append(out, Item{Family: FamW6, Sc: &cluster.Scenario{Name: "corpus/w6-shared-worker-marker-between", Brokers: 1, Partitions: 5, Topics: []string{"t0"},
+		RetryMax: 3, V2: true, MaxMsgs: 2, ChanBuf: 256,
+		// waves 0-4 warm up the five partition workers one request each (their syn has passed the broker worker);
+		// then a1=6, b1=7, c1=8, c2=9, d1=10, e1=11, b2=12, b3=13, b4=14
+		Msgs: []cluster.MsgSpec{pm(1, 0, 0), pm(2, 1, 1), pm(3, 2, 2), pm(4, 3, 3), pm(5, 4, 4),
+			pm(6, 0, 5), pm(7, 1, 6), pm(8, 2, 7), pm(9, 2, 8), pm(10, 3, 9), pm(11, 4, 10), pm(12, 1, 11), pm(13, 1, 12), pm(14, 1, 12)},
+		Script: []cluster.Fault{okf, okf, okf, okf, okf, ret(6), {Kind: cluster.Retriable, Err: 6, Only: 0}}},
+		Steer: []Steer{
+			{HoldKind: "return.success", HoldNth: 1, Gate: 1},
+			{HoldKind: "return.success", HoldNth: 2, Gate: 2},
+			{HoldKind: "return.success", HoldNth: 3, Gate: 3},
+			{HoldKind: "return.success", HoldNth: 4, Gate: 4},
+			{HoldKind: "return.success", HoldNth: 5, Gate: 5},
+			{HoldKind: "bridge.send", HoldNth: 1, HoldMsgID: 6, Gate: 6, ReleaseOn: &Release{Kind: "tp.forward", MsgID: 14}},
+			{HoldKind: "bp.add", HoldNth: 1, HoldMsgID: 7, Gate: 7},
+			{HoldKind: "bp.add", HoldNth: 1, HoldMsgID: 8, Gate: 8},
+			{HoldKind: "bp.waitForSpace", HoldNth: 1, HoldMsgID: 9, Gate: 9},
+			{HoldKind: "pp.send", HoldNth: 1, HoldMsgID: 10, Gate: 10},
+			{HoldKind: "pp.send", HoldNth: 1, HoldMsgID: 11, Gate: 11},
+			{HoldKind: "pp.send", HoldNth: 1, HoldMsgID: 12, Gate: 12},
+			{HoldKind: "bridge.send", HoldNth: 1, HoldMsgID: 7, ReleaseOn: &Release{Kind: "pp.newHWM"}},
+		}})
 	// plain: bounce with a filled buffer, no steering
 	out = append(out, Item{Family: FamPlain, Sc: &cluster.Scenario{Name: "corpus/plain-bounce", Brokers: 1, Partitions: 2, Topics: []string{"t0"},
 		RetryMax: 1, V2: true, Msgs: []cluster.MsgSpec{hot(1, 0), hot(2, 0), {ID: 3, Topic: "t0", Choice: 1}, hot(4, 0), hot(5, 0), hot(6, 0)},
